@@ -16,7 +16,9 @@ import (
 	"verif/internal/lspx"
 )
 
-func TestMain(m *testing.M) { hx.Main(m, "C18") }
+// the whole run happens in a child: a message that kills the process (a fatal runtime error is not a
+// panic) is re-run alone and reported as the violation it is
+func TestMain(m *testing.M) { hx.MainContained(m, "C18") }
 
 // Msg is one client->server message of a history.
 type Msg struct {
@@ -31,6 +33,8 @@ type Msg struct {
 	Method  string `json:"method,omitempty"`
 	Raw     string `json:"raw,omitempty"` // bytes sent verbatim (bad headers, malformed JSON)
 	ID      int    `json:"id,omitempty"`
+	// TabSize, when non-zero, replaces EL as the tabSize of a formatting request (absurd values)
+	TabSize int64 `json:"tab_size,omitempty"`
 	// a second change in the same didChange notification (batch)
 	Batch *Msg `json:"batch,omitempty"`
 }
@@ -82,6 +86,9 @@ func wire(m Msg) (raw string, framed bool, reqID string) {
 		opts := ""
 		if m.Method == "textDocument/formatting" {
 			opts = fmt.Sprintf(`,"options":{"tabSize":%d,"insertSpaces":%v}`, m.EL, m.EC%2 == 0)
+			if m.TabSize != 0 {
+				opts = fmt.Sprintf(`,"options":{"tabSize":%d,"insertSpaces":true}`, m.TabSize)
+			}
 		}
 		return fmt.Sprintf(`{"jsonrpc":"2.0","id":%q,"method":%q,"params":{"textDocument":{"uri":%q},"position":{"line":%d,"character":%d},"range":{"start":{"line":%d,"character":%d},"end":{"line":%d,"character":%d}},"context":{"diagnostics":[]}%s}}`,
 			id, m.Method, m.URI, m.SL, m.SC, m.SL, m.SC, m.EL, m.EC, opts), true, id
@@ -407,7 +414,13 @@ func genMsg(rt *rapid.T, id int, open map[string]string, feat map[string]bool) M
 	case 9:
 		return Msg{Kind: "save", URI: uri}
 	case 10, 11, 12:
-		return Msg{Kind: "request", ID: id, URI: uri, Method: rapid.SampledFrom(methods).Draw(rt, "method"), SL: pos("l"), SC: rapid.IntRange(-1, 30).Draw(rt, "c"), EL: rapid.IntRange(-2, 8).Draw(rt, "el"), EC: rapid.IntRange(0, 9).Draw(rt, "ec")}
+		m := Msg{Kind: "request", ID: id, URI: uri, Method: rapid.SampledFrom(methods).Draw(rt, "method"), SL: pos("l"), SC: rapid.IntRange(-1, 30).Draw(rt, "c"), EL: rapid.IntRange(-2, 8).Draw(rt, "el"), EC: rapid.IntRange(0, 9).Draw(rt, "ec")}
+		if m.Method == "textDocument/formatting" && rapid.IntRange(0, 3).Draw(rt, "absurd_tab") == 0 {
+			// a number only a broken or hostile client sends: the request is answered (result or error) and the server lives on
+			m.TabSize = rapid.SampledFrom([]int64{1 << 40, 1 << 31, 100000, -1 << 40}).Draw(rt, "tab_size")
+			feat["absurd_tab_size"] = true
+		}
+		return m
 	case 13:
 		return Msg{Kind: "request_noparams", ID: id, Method: rapid.SampledFrom(append(methods, "initialize", "workspace/unknown")).Draw(rt, "method")}
 	case 14:
